@@ -139,7 +139,7 @@ def extract(features=None, force=False):
         os.rename(tmp, d)
         # keep the cache small: drop fact dirs other than the newest four
         olds = sorted(glob.glob(os.path.join(CACHE, "facts-*")), key=os.path.getmtime)
-        for o in olds[:-320]:
+        for o in olds[:-400]:
             shutil.rmtree(o, ignore_errors=True)
         return d
     finally:
